@@ -5,6 +5,7 @@ import ast
 from ..rulekit import *
 from ..norm import Normalizer, Poly
 from . import _kit_c02 as kit
+from ..model import BUILTIN_EXC
 
 R = Rules(
     "C02",
@@ -24,7 +25,15 @@ R = Rules(
         "collisions, drawn before the key is formed; transport errors fail exactly the requests of the reported remote, each "
         "once, always with a NetworkError; the generator Request._run completes the response future exactly once before its "
         "first suspension and never again; endpoint equality and hash use the same projection of the socket address that keeps "
-        "address and port.  Completion under arbitrary loss/duplication/reordering schedules is not decided."
+        "address and port.  Three clauses follow the response / the failure outside the token manager, each on small worlds of the same "
+        "evaluator (extended by coroutines, single-step async generators, evaluated constructors, struct, contextvars and loop callbacks): "
+        "Message.decode accepts every version-1 datagram with a legal token length (0..8) and hands on token, message ID, type and remote "
+        "unchanged (C02.k); whatever the route-checked resolver does on the single step its consumer takes -- raise, or end without an "
+        "address, which is StopAsyncIteration there -- is converted into a library error by the handlers around that step (C02.l); an "
+        "OSError of the socket's sendmsg is dispatched with the remote of the failing datagram whichever way the transport calls "
+        "error_received (at once or through the loop, which captures the context) and whichever way the interface records the destination "
+        "(attribute or context variable), and an error reported while nothing is sent names no remote (C02.m).  Completion under "
+        "arbitrary loss/duplication/reordering schedules is not decided."
     ),
     rule_text="small-scope evaluation of the token manager's methods against behavioural reference outcomes; ownership over the whole package; exactly-once path rules; normal forms",
 )
@@ -750,6 +759,534 @@ def h_thorough(ctx):
     ctx.floor("endpoint-address classes with identity methods", n, 2)
 
 
+# -- the datagram parser hands on what matching needs --------------------------------------------------------------
+
+class _DCRun:
+    pass
+
+
+def _enum_arg(v, qn):
+    """The plain number inside (possibly repeated) opaque constructions `qn(x)` of an enum of the confirmed tree."""
+    seen = 0
+    while isinstance(v, kit.Obj) and v.cls == qn and isinstance(v.attrs.get("args"), tuple) and len(v.attrs["args"]) == 1 and seen < 4:
+        v = v.attrs["args"][0]
+        seen += 1
+    return v
+
+
+def _decode_runs(ctx):
+    """Message.decode(rawdata, remote) on version-1 datagrams of every message type with every legal token length
+    (0..8 bytes, RFC 7252 section 3), without and with bytes after the token.  Message objects are built by running
+    Message.__init__ (so a constructor keyword and a later attribute assignment are the same fact); enum
+    constructions, the option parser and everything else of the confirmed tree are opaque events."""
+    def build():
+        prog = _world_prog(ctx)
+        fi = _anchor(ctx, prog, "message.Message.decode")
+        mq = prog.cls("message.Message").qn
+        ps = params(fi)
+        ctx.need(len(ps) == 2, "Message.decode: (rawdata, remote) expected")
+        runs = []
+        for tkl in range(0, 9):
+            for mtype in range(4):
+                for tail in (b"", b"\xff\x99\x98"):
+                    def run(script, tkl=tkl, mtype=mtype, tail=tail):
+                        r = _DCRun()
+                        r.tkl, r.mtype, r.tail = tkl, mtype, tail
+                        r.token = bytes(range(0xA1, 0xA1 + tkl))
+                        r.mid = 0x1234 + 0x0101 * mtype
+                        r.code = (0x45, 0x44, 0x84, 0x00)[mtype] if not tkl == 0 else 0x45
+                        r.raw = bytes([0x40 | (mtype << 4) | tkl, r.code, r.mid >> 8, r.mid & 0xFF]) + r.token + tail
+                        r.remote = kit.Obj("remote", True)
+                        it = kit.XInterp(prog, script, evaluate_classes={mq})
+                        r.it = it
+                        r.result = it.run(lambda: it.call(it.getattr(kit.ClassRef(mq), "decode"), [r.raw, r.remote], {}, fi.node))
+                        return it, r
+                    for it, r in kit.explore(run):
+                        runs.append(r)
+        return fi, runs
+    return _cached(ctx, "decode", build)
+
+
+@R.clause("C02.k", "the datagram parser accepts every legal token length and hands on token, message ID, type and remote unchanged")
+def k(ctx):
+    """Matching happens on what Message.decode returns: a datagram that the parser rejects never reaches the token
+    manager (the request it answers never completes, an unmatched confirmable response is not answered with a
+    Reset), and a token, message ID, type or remote that the parser alters makes the lookup / the Reset miss."""
+    fi, runs = _decode_runs(ctx)
+    tq = ctx.prog.cls("numbers.types.Type").qn
+    V = _Verdicts(ctx, fi)
+    for r in runs:
+        w = "world: version-1 datagram of type %d with a %d-byte token%s" % (r.mtype, r.tkl, ", %d more bytes follow" % len(r.tail) if r.tail else "")
+        kind, val, node = r.result
+        V.check("a datagram with a legal token length (0..8 bytes) is parsed, not rejected", kind == "return", node,
+                "%s: Message.decode raises %s" % (w, val.cls if kind == "raise" else ""), run=r)
+        if kind != "return":
+            continue
+        ctx.need(isinstance(val, kit.Obj), "Message.decode returns %r in the evaluated world" % (val,))
+        sets = {}
+        for e_ in r.it.events:
+            if e_.kind == "setattr" and e_.obj == val:
+                sets[e_.attr] = e_.node
+        V.check("the parsed message carries the token of the datagram", val.attrs.get("token") == r.token and isinstance(val.attrs.get("token"), bytes), sets.get("token"),
+                "%s: token %r instead of %r" % (w, val.attrs.get("token"), r.token), run=r)
+        mid = val.attrs.get("mid")
+        V.check("the parsed message carries the message ID of the datagram (a Reset echoes it)", mid == r.mid and isinstance(mid, int) and not isinstance(mid, bool), sets.get("mid"),
+                "%s: message ID %r instead of %r" % (w, mid, r.mid), run=r)
+        mt = _enum_arg(val.attrs.get("mtype"), tq)
+        V.check("the parsed message carries the type of the datagram (only a confirmable unmatched response is reset)", mt == r.mtype and isinstance(mt, int) and not isinstance(mt, bool), sets.get("mtype"),
+                "%s: type %r instead of %r" % (w, mt, r.mtype), run=r)
+        V.check("the parsed message carries the remote the datagram came from", val.attrs.get("remote") == r.remote, sets.get("remote"),
+                "%s: remote %r" % (w, val.attrs.get("remote")), run=r)
+    V.emit()
+
+
+# -- address lookup: what the resolver raises is what its consumer converts -----------------------------------------
+
+class _RSRun:
+    pass
+
+
+def _first_step_consumers(prog):
+    """(consumer FuncInfo, consuming call, producer FuncInfo): every place of the package where an async generator
+    function of the package is created and advanced by a single step -- `G(...).__anext__()`, `anext(G(...)[, d])`,
+    the generator object possibly held in a single-assignment local.  Unlike `async for`, a single step turns the
+    END of the generator into an exception (StopAsyncIteration) at the consumer."""
+    out = []
+    for fi in prog.funcs.values():
+        if isinstance(fi.node, ast.Lambda):
+            continue
+        for c in walk_no_nested(fi.node):
+            if not isinstance(c, ast.Call):
+                continue
+            if isinstance(c.func, ast.Attribute) and c.func.attr == "__anext__" and not c.args and not c.keywords:
+                g, has_default = c.func.value, False
+            elif isinstance(c.func, ast.Name) and c.func.id == "anext" and 1 <= len(c.args) <= 2 and not c.keywords:
+                g, has_default = c.args[0], len(c.args) == 2
+            else:
+                continue
+            g = resolve_local(fi.node, g)
+            if not isinstance(g, ast.Call):
+                continue
+            name = chain(g.func)
+            if name is None:
+                continue
+            qn = prog.resolve_in_module(fi.module, name)
+            pf = prog.funcs.get(qn)
+            if pf is None or not isinstance(pf.node, ast.AsyncFunctionDef) or not any(isinstance(n, ast.Yield) for n in kit._own_nodes(pf.node)):
+                continue
+            out.append((fi, c, pf, has_default))
+    return out
+
+
+def _resolver_runs(ctx, prog, pf):
+    """The route-checked resolver G(loop, log, host, port) run to its FIRST yield on small worlds: loop.getaddrinfo
+    answers with 0..2 candidates -- IPv6 or IPv4 addresses that the routability probe (a datagram socket's connect)
+    finds reachable / unreachable (ENETUNREACH) / failing otherwise, or an address of a family the resolver cannot
+    use -- or fails itself with socket.gaierror; one world asks for an address literal.  Outcome per world: a value
+    is yielded, an exception leaves the generator, or the generator ends (StopAsyncIteration at a single-step
+    consumer)."""
+    def build():
+        ps = params(pf)
+        ctx.need(len(ps) == 4 and not pf.node.args.kwonlyargs and pf.node.args.vararg is None, "%s: (loop, log, host, port) expected" % pf.short)
+        kinds = [("IPv6, reachable", 6, "ok"), ("IPv6, unreachable (ENETUNREACH)", 6, "ENETUNREACH"), ("IPv6, probe fails with EACCES", 6, "EACCES"),
+                 ("IPv4, reachable", 4, "ok"), ("IPv4, unreachable (ENETUNREACH)", 4, "ENETUNREACH"), ("other address family", 0, None)]
+        lists = [[]] + [[a] for a in kinds] + [[a, b] for a in kinds for b in kinds]
+        worlds = [("the name does not resolve (loop.getaddrinfo raises socket.gaierror)", None, "host.example")]
+        worlds += [("loop.getaddrinfo returns %s" % ("; ".join(k[0] for k in l) or "no candidate"), l, "host.example") for l in lists]
+        worlds.append(("an IPv6 address literal is asked for, without a route (ENETUNREACH)", [kinds[1]], "2001:db8::1"))
+        runs = []
+        for desc, cands, host in worlds:
+            def run(script, desc=desc, cands=cands, host=host):
+                r = _RSRun()
+                r.desc = desc
+                loop, log = kit.Obj("loop", True), kit.Obj("log", True)
+                fam = {6: kit.Obj("ext:socket.AF_INET6", True), 4: kit.Obj("ext:socket.AF_INET", True), 0: kit.Obj("ext:socket.AF_PACKET", True)}
+                typ, proto = kit.Obj("ext:socket.SOCK_DGRAM", True), kit.Obj("ext:socket.IPPROTO_UDP", True)
+                entries, probe = [], {}
+                for i, (_d, f, outcome) in enumerate(cands or ()):
+                    if f == 6:
+                        ip = "2001:db8::%d" % (i + 1)
+                        entries.append((fam[6], typ, proto, "", (ip, 5683, 0, 0)))
+                        probe[ip] = outcome
+                    elif f == 4:
+                        ip = "192.0.2.%d" % (i + 1)
+                        entries.append((fam[4], typ, proto, "", (ip, 5683)))
+                        probe[ip] = probe["::ffff:" + ip] = outcome
+                    else:
+                        entries.append((fam[0], typ, proto, "", ("eth0", 0)))
+                socks = []
+
+                def opaque(it, callee, args, kwargs, node):
+                    if callee.parent == loop and callee.attr == "getaddrinfo":
+                        if cands is None:
+                            raise kit.Raised(it.new_exc("socket.gaierror"), node)
+                        return kit.VList(entries)
+                    if callee.name == "ext:socket.socket":
+                        s_ = it.fresh("probe-socket", known=True)
+                        socks.append(s_)
+                        return s_
+                    if callee.parent in socks and callee.attr == "connect" and len(args) == 1 and not kwargs and isinstance(args[0], tuple) and args[0] and args[0][0] in probe:
+                        o = probe[args[0][0]]
+                        if o == "ok":
+                            return None
+                        exc = it.new_exc("OSError")
+                        exc.attrs["errno"] = kit.Obj("ext:errno." + o, True)
+                        raise kit.Raised(exc, node)
+                    if callee.parent in socks and callee.attr == "close":
+                        return None
+                    return NotImplemented
+                it = kit.XInterp(prog, script, opaque_call=opaque)
+                r.it = it
+
+                def first():
+                    g = it.call(kit.Func(pf.node, pf.module, qn=pf.qn), [loop, log, host, 5683], {}, pf.node)
+                    if not isinstance(g, kit.Gen):
+                        it.refuse("%s does not create a generator" % pf.short)
+                    return it.gen_first(g, pf.node)
+                r.result = it.run(first)
+                return it, r
+            for it, r in kit.explore(run):
+                runs.append(r)
+        return runs
+    return _cached(ctx, "resolver:" + pf.qn, build)
+
+
+def _try_bodies_around(fnode, target):
+    """The try statements of fnode whose *body* contains target, innermost first."""
+    out = []
+
+    def rec(n):
+        if n is target:
+            return True
+        for field, value in ast.iter_fields(n):
+            items = value if isinstance(value, list) else [value]
+            for x in items:
+                if isinstance(x, ast.AST) and rec(x):
+                    if isinstance(n, ast.Try) and field == "body":
+                        out.append(n)
+                    return True
+        return False
+    rec(fnode)
+    return out
+
+
+def _always_raises(body):
+    """Every way through the statement list ends in a raise (log calls and bindings in between are immaterial)."""
+    if not body:
+        return False
+    last = body[-1]
+    if isinstance(last, ast.Raise):
+        return True
+    if isinstance(last, ast.If):
+        return _always_raises(last.body) and _always_raises(last.orelse)
+    if isinstance(last, (ast.With, ast.AsyncWith)):
+        return _always_raises(last.body)
+    return False
+
+
+_EXC_ALIASES = {"socket.error": "OSError", "IOError": "OSError", "EnvironmentError": "OSError", "select.error": "OSError", "asyncio.TimeoutError": "TimeoutError"}
+
+
+def _known_exc(prog, qn):
+    return qn in prog.classes or qn in BUILTIN_EXC
+
+
+def _except_classes(prog, fi, ty, depth=0):
+    """Qualified names of the classes an except clause names: a class, a tuple of classes, or a module-level
+    constant holding such a tuple.  Classes the checker has no hierarchy for are refused (they might be a base of
+    what is raised)."""
+    if isinstance(ty, ast.Tuple):
+        out = []
+        for x in ty.elts:
+            out.extend(_except_classes(prog, fi, x, depth))
+        return out
+    name = chain(ty)
+    if name is None or depth > 3:
+        raise AnalysisError("%s: except clause over `%s`" % (fi.short, stmt_text(ty)))
+    qn = prog.resolve_in_module(fi.module, name)
+    qn = _EXC_ALIASES.get(qn, qn)
+    if _known_exc(prog, qn):
+        return [qn]
+    if "." not in name and prog._module_defines(fi.module, name):
+        vals = [st.value for st in fi.module.tree.body if isinstance(st, ast.Assign) and any(isinstance(t, ast.Name) and t.id == name for t in st.targets)]
+        if len(vals) == 1:
+            return _except_classes(prog, fi, vals[0], depth + 1)
+    raise AnalysisError("%s: except clause over `%s`: the class hierarchy of %s is not known to the checker" % (fi.short, stmt_text(ty), qn))
+
+
+def _handler_for(prog, fi, trys, xcls):
+    """The handler that receives an exception of class xcls raised in the innermost body of `trys` (None: it leaves
+    the function)."""
+    if not _known_exc(prog, xcls):
+        raise AnalysisError("%s: the class hierarchy of %s is not known to the checker" % (fi.short, xcls))
+    for t in trys:
+        for h in t.handlers:
+            if h.type is None:
+                return h
+            if any(prog.is_subclass(xcls, q) for q in _except_classes(prog, fi, h.type)):
+                return h
+    return None
+
+
+@R.clause("C02.l", "address lookup: every way the route-checked resolver fails or ends at its single-step consumer becomes a library error")
+def l(ctx):
+    """A request whose destination cannot be resolved completes with whatever determine_remote raises (the caller
+    hands it to the request as is).  The resolver is an async generator advanced by ONE step: besides what it raises,
+    its *ending without a yield* is an exception at the consumer (StopAsyncIteration).  The invariant is joint: what
+    the producer can do on its first step (decided on small worlds) is what the consumer converts (decided on the
+    handlers around the step); either side may change as long as they agree."""
+    prog = _world_prog(ctx)
+    sites = _first_step_consumers(prog)
+    ctx.note("single-step consumers of async generators of the package: %s" % (", ".join("%s <- %s" % (f.short, p.short) for f, _c, p, _d in sites) or "none"))
+    lib = "aiocoap.error.Error"
+    for fi, call, pf, has_default in sites:
+        ctx.prog.touched.add(fi.qn)
+        ctx.prog.touched.add(pf.qn)
+        runs = _resolver_runs(ctx, prog, pf)
+        trys = _try_bodies_around(fi.node, call)
+        V = _Verdicts(ctx, fi)
+        caught = "what the address lookup raises on its first step is converted into a library error by its consumer"
+        ended = "an address lookup that ends without an address is converted into a library error by its consumer"
+        yielded = 0
+        for r in runs:
+            kind, val, node = r.result
+            if kind == "return":
+                yielded += 1
+                continue
+            xcls = val.cls
+            end = xcls == "StopAsyncIteration" and node is pf.node
+            if end and has_default:
+                raise AnalysisError("%s: anext() with a default: what the consumer does with the default is outside the rule's vocabulary" % fi.short)
+            desc = ended if end else caught
+            w = "world: %s: %s" % (r.desc, "the generator ends without a yield, its consumer gets StopAsyncIteration" if end else "%s raises %s" % (pf.short, xcls))
+            h = _handler_for(prog, fi, trys, xcls)
+            if h is None:
+                ok = prog.is_subclass(xcls, lib)
+                if not ok:
+                    # a conversion further up the call chain is outside the rule's vocabulary: refuse instead of alarming
+                    for other in prog.funcs.values():
+                        if isinstance(other.node, ast.Lambda):
+                            continue
+                        for c2 in walk_no_nested(other.node):
+                            if isinstance(c2, ast.Call) and isinstance(c2.func, ast.Attribute) and c2.func.attr == fi.node.name:
+                                h2 = _handler_for(prog, other, _try_bodies_around(other.node, c2), xcls)
+                                if h2 is not None and h2.type is not None and not any(q in ("Exception", "BaseException") for q in _except_classes(prog, other, h2.type)):
+                                    raise AnalysisError("%s: %s is handled by a caller (%s): outside the rule's vocabulary" % (fi.short, xcls, other.short))
+                V.check(desc, ok, call, "%s; no handler around the step catches it and it is not derived from error.Error: the request completes with it as is" % w, run=r)
+                continue
+            raises = [n for n in walk_no_nested(ast.Module(body=h.body, type_ignores=[])) if isinstance(n, ast.Raise)]
+            if not _always_raises(h.body):
+                raise AnalysisError("%s: the handler for %s does not end in a raise on every path: outside the rule's vocabulary" % (fi.short, xcls))
+            for rs in raises:
+                if rs.exc is None:
+                    ok = prog.is_subclass(xcls, lib)
+                    V.check(desc, ok, rs, "%s; the handler re-raises it" % w, run=r)
+                    continue
+                tgt = rs.exc.func if isinstance(rs.exc, ast.Call) else rs.exc
+                tgt = resolve_local(fi.node, tgt)
+                if isinstance(tgt, ast.Call):
+                    tgt = tgt.func
+                name = chain(tgt)
+                if name is not None and h.name is not None and name == h.name:
+                    ok = prog.is_subclass(xcls, lib)
+                    V.check(desc, ok, rs, "%s; the handler re-raises it" % w, run=r)
+                    continue
+                qn = prog.resolve_in_module(fi.module, name) if name is not None else None
+                qn = _EXC_ALIASES.get(qn, qn)
+                if qn is None or not _known_exc(prog, qn):
+                    raise AnalysisError("%s: cannot resolve what `%s` raises" % (fi.short, stmt_text(rs)))
+                V.check(desc, prog.is_subclass(qn, lib), rs, "%s; the handler raises %s, which is not derived from error.Error" % (w, qn), run=r)
+            V.check(desc, True, call)
+        V.check("the address lookup yields an address in some world (the worlds exercise it)", yielded > 0, call, "no world makes %s yield" % pf.short)
+        V.emit()
+
+
+# -- send errors: the remote recorded by send() is the remote error_received() reads -----------------------------------
+
+class _SERun:
+    pass
+
+
+_SEND_SCENARIOS = [
+    # (description, [(remote index, errno name or None)], drain the loop's callbacks after every send?)
+    ("one datagram, the socket refuses it with ENETUNREACH", [(0, "ENETUNREACH")], True),
+    ("one datagram, the socket refuses it with EPERM", [(0, "EPERM")], True),
+    ("a datagram to one remote goes out, then the socket refuses a datagram to another remote (EHOSTUNREACH)", [(0, None), (1, "EHOSTUNREACH")], True),
+    ("the socket refuses a datagram to one remote (ENETUNREACH), then a datagram to another remote goes out", [(0, "ENETUNREACH"), (1, None)], True),
+    ("the socket refuses a datagram to one remote (ENETUNREACH) and a datagram to another remote goes out before the loop runs its callbacks", [(0, "ENETUNREACH"), (1, None)], False),
+    ("two datagrams go out", [(0, None), (1, None)], True),
+]
+
+
+def _send_error_runs(ctx, prog, pq):
+    """The udp6-style message interface wired to its transport as the package does it
+    (create_recvmsg_datagram_endpoint(loop, factory, sock) with a factory building the interface; the loop's
+    call_soon / call_later / create_task run their callbacks later, in the context captured when they were
+    scheduled, as asyncio does), then interface.send(message) for one or two messages while the socket's sendmsg
+    raises OSError for some of them.  Interface and transport objects are built by their own __init__ and all
+    their methods are evaluated; the socket, the loop, the messages and the message manager behind the interface
+    are opaque individuals.  At the end error_received is called once more while no send is under way.  Observed: the calls of dispatch_error on whatever the interface reports errors to."""
+    def build():
+        entry = _anchor(ctx, prog, "util.asyncio.recvmsg.create_recvmsg_datagram_endpoint")
+        eps = params(entry)
+        ctx.need(len(eps) == 3, "create_recvmsg_datagram_endpoint: (loop, factory, sock) expected")
+        init = prog.lookup_method(pq, "__init__")
+        ctx.need(init is not None and sorted(params(init)) == ["bind", "log", "loop"], "%s.__init__: (bind, log, loop) expected" % pq)
+        send = prog.lookup_method(pq, "send")
+        ctx.need(send is not None and len(params(send)) == 1, "%s.send: (message) expected" % pq)
+        ctx.prog.touched.add(send.qn)
+        evaluate = {pq} | {c for c in prog.classes if prog.classes[c].module is entry.module}
+        runs = []
+        for desc, sends, drain_each in _SEND_SCENARIOS:
+            def run(script, desc=desc, sends=sends, drain_each=drain_each):
+                r = _SERun()
+                r.desc, r.sends = desc, sends
+                loop, log, sock = kit.Obj("loop", True), kit.Obj("log", True), kit.Obj("socket", True)
+                r.remotes = [kit.Obj("remote-%d" % (i + 1), True, attrs={"pktinfo": None, "sockaddr": kit.Obj("sockaddr-%d" % (i + 1), True)}) for i in range(2)]
+                queue, futures, state = [], [], {"errno": None}
+                r.refused = []
+
+                def root(o):
+                    while o.parent is not None:
+                        o = o.parent
+                    return o
+
+                def schedule(it, cb, args, kwargs):
+                    c = kwargs.get("context")
+                    if c is not None and not isinstance(c, kit.CtxSnap):
+                        it.refuse("callback scheduled with a context the world does not model")
+                    extra = set(kwargs) - {"context", "name"}
+                    if extra:
+                        it.refuse("callback scheduled with keyword(s) %s" % ", ".join(sorted(extra)))
+                    queue.append((cb, list(args), dict(it.context) if c is None else None, c))
+                    return it.fresh("handle", known=True)
+
+                def opaque(it, callee, args, kwargs, node):
+                    if callee.parent == loop and callee.attr in ("call_soon", "call_soon_threadsafe") and args:
+                        return schedule(it, args[0], args[1:], kwargs)
+                    if callee.parent == loop and callee.attr in ("call_later", "call_at") and len(args) >= 2:
+                        return schedule(it, args[1], args[2:], kwargs)
+                    if ((callee.parent == loop and callee.attr == "create_task") or callee.name in ("ext:asyncio.create_task", "ext:asyncio.ensure_future")) and len(args) == 1 and isinstance(args[0], kit.Coro):
+                        return schedule(it, kit.HostFunc("task step", lambda it_, a, k, n, co=args[0]: it_.await_value(co, n)), [], kwargs)
+                    if callee.name in ("ext:asyncio.get_running_loop", "ext:asyncio.get_event_loop") and not args:
+                        return loop
+                    if callee.attr == "create_future" and not args:
+                        f_ = it.fresh("future", known=True)
+                        futures.append(f_)
+                        return f_
+                    if callee.parent in futures and callee.attr in ("cancelled", "done") and not args:
+                        return False
+                    if callee.parent == sock and callee.attr == "fileno" and not args:
+                        return 7
+                    if callee.parent == sock and callee.attr == "sendmsg":
+                        if state["errno"] is not None:
+                            exc = it.new_exc("OSError")
+                            exc.attrs["errno"] = kit.Obj("ext:errno." + state["errno"], True)
+                            r.refused.append(exc)
+                            raise kit.Raised(exc, node)
+                        return it.fresh("bytes-sent", known=True)
+                    if callee.attr == "dispatch_error" and root(callee) == r.iface:
+                        return None
+                    return NotImplemented
+
+                it = kit.XInterp(prog, script, opaque_call=opaque, evaluate_classes=evaluate)
+                r.it = it
+                r.iface = None
+
+                def factory(it_, a, k, n):
+                    if a or k:
+                        raise kit.Raised(it_.new_exc("TypeError"), n)
+                    r.iface = it_.instantiate(pq, [], {"bind": ("::", 0), "log": log, "loop": loop}, n)
+                    return r.iface
+
+                def drain():
+                    n = 0
+                    while queue:
+                        n += 1
+                        if n > 50:
+                            it.refuse("the loop's callbacks keep scheduling callbacks")
+                        cb, args, snap, cobj = queue.pop(0)
+                        if cobj is not None:
+                            it.run_in_context(cobj.mapping, cb, args, {}, None, keep=cobj)
+                        else:
+                            it.run_in_context(snap, cb, args, {}, None)
+
+                def scenario():
+                    made = it.await_value(it.call(kit.Func(entry.node, entry.module, qn=entry.qn), [loop, kit.HostFunc("factory", factory)], {eps[2]: sock}, entry.node), entry.node)
+                    if not (isinstance(made, tuple) and len(made) == 2 and r.iface is not None and made[1] == r.iface):
+                        it.refuse("create_recvmsg_datagram_endpoint does not return (transport, the protocol the factory built)")
+                    drain()
+                    r.setup_events = len(it.events)
+                    for i, (ri, en) in enumerate(sends):
+                        msg = kit.Obj("message-%d" % (i + 1), True, attrs={"remote": r.remotes[ri]})
+                        state["errno"] = en
+                        it.call(it.getattr(r.iface, "send"), [msg], {}, send.node)
+                        state["errno"] = None
+                        if drain_each:
+                            drain()
+                    drain()
+                    # afterwards the transport reports an error of its receive path: no send is under way
+                    r.idle_events = len(it.events)
+                    exc = it.new_exc("OSError")
+                    exc.attrs["errno"] = kit.Obj("ext:errno.ECONNREFUSED", True)
+                    it.call(it.getattr(r.iface, "error_received"), [exc], {}, send.node)
+                    drain()
+                    return None
+                r.result = it.run(scenario)
+                return it, r
+            for it, r in kit.explore(run):
+                runs.append(r)
+        return send, runs
+    return _cached(ctx, "send-error:" + pq, build)
+
+
+@R.clause("C02.m", "a send error reported by the socket fails the requests of the remote the datagram was addressed to: what send() records is what error_received() reads when the transport calls it")
+def m(ctx):
+    """An unconnected datagram socket reports an OSError of sendmsg without saying for which destination.  The
+    interface therefore records the destination around the call of transport.sendmsg, and error_received -- called
+    by the transport, immediately or through the loop -- reads it back and hands (error, remote) to dispatch_error
+    (whose fan-out is C02.j / C02.e).  Both sides may change (plain attribute or context variable; synchronous call
+    or loop.call_soon, which captures the context) as long as the value read is the one recorded for the failing
+    send; otherwise the error is dropped ("no way to determine which sending caused the error") and a NON request
+    never completes.  Decided on worlds, not on the spelling of either side."""
+    prog = _world_prog(ctx)
+    base = prog.cls("util.asyncio.recvmsg.RecvmsgDatagramProtocol").qn
+    ifaces = sorted(q for q in prog.classes if q != base and prog.is_subclass(q, base))
+    ctx.floor("message interfaces on the recvmsg transport", len(ifaces), 1)
+    for pq in ifaces:
+        fi, runs = _send_error_runs(ctx, prog, pq)
+        V = _Verdicts(ctx, fi)
+        for r in runs:
+            w = "world: %s" % r.desc
+            kind, val, node = r.result
+            V.check("sending a datagram does not raise, whatever the socket reports", kind == "return", node, "%s: %s escapes" % (w, val.cls if kind == "raise" else ""), run=r)
+            if kind != "return":
+                continue
+            calls = [e_ for e_ in r.it.events[r.setup_events:r.idle_events] if e_.kind == "call" and e_.callee.attr == "dispatch_error"]
+            idle = [e_ for e_ in r.it.events[r.idle_events:] if e_.kind == "call" and e_.callee.attr == "dispatch_error"]
+            for e_ in idle:
+                named = [a_ for a_ in list(e_.args) + list(e_.kwargs.values()) if a_ in r.remotes]
+                V.check("an error the transport reports while no send is under way is not attributed to a remote of an earlier send", not named, e_.node,
+                        "%s; then the receive path reports ECONNREFUSED: dispatch_error is called for %s" % (w, ", ".join(x.name for x in named)), run=r)
+            V.check("an error the transport reports while no send is under way is not attributed to a remote of an earlier send", True)
+            want = [r.remotes[ri] for ri, en in r.sends if en is not None]
+            got = []
+            for e_ in calls:
+                args = list(e_.args) + [e_.kwargs[k_] for k_ in e_.kwargs]
+                got.append([a_ for a_ in args if a_ in r.remotes])
+            desc = "a send error reported by the socket is dispatched with the remote the failing datagram was addressed to"
+            for e_, g_ in zip(calls, got):
+                V.check(desc, len(g_) == 1 and g_[0] in want, e_.node,
+                        "%s: dispatch_error is called for %s" % (w, ", ".join(x.name for x in g_) or "no remote of the world"), run=r)
+            for rm in want:
+                V.check(desc, any(g_ == [rm] for g_ in got), None,
+                        "%s: no dispatch_error for %s: the error is dropped, requests to that remote that nothing retransmits never complete" % (w, rm.name), run=r)
+            if not want:
+                V.check("no error is dispatched when the socket accepted every datagram", not calls, calls[0].node if calls else None, "%s: dispatch_error is called" % w, run=r)
+            V.check(desc, True)
+        V.emit()
+
+
 F_TM = "aiocoap/tokenmanager.py"
 R.seed("C02.j", "aiocoap/messagemanager.py", "        self.log.debug(\"Incoming error %s from %r\", error, remote)\n", "        self.log.debug(\"Incoming error %s from %r\", error, remote)\n        if remote not in self._backlogs:\n            return\n", "errors for remotes without an open exchange are dropped: NON requests and observations never fail")
 R.seed("C02.i", "aiocoap/messagemanager.py", "            del self._backlogs[message.remote]\n            self.token_manager.dispatch_error(", "            self.token_manager.dispatch_error(", "stale backlog entry after a timeout: the next request to that remote never completes with a library error")
@@ -792,3 +1329,21 @@ R.seed("C02.f", "aiocoap/protocol.py", "        if self.observation is None:\n  
 R.seed("C02.f", "aiocoap/protocol.py", "            self.response.set_exception(first_event.exception)\n            if not isinstance(first_event.exception, error.Error):", "            if not isinstance(first_event.exception, error.Error):", "error event leaves the future pending")
 R.seed("C02.h", "aiocoap/transports/udp6.py", "        return self.sockaddr[:-1] == other.sockaddr[:-1]", "        return self.sockaddr[:1] == other.sockaddr[:1]", "port ignored")
 R.seed("C02.h", "aiocoap/transports/udp6.py", "        return hash(self.sockaddr[:-1])", "        return hash(self.sockaddr)", "hash and eq disagree")
+F_MSG = "aiocoap/message.py"
+F_GAI = "aiocoap/util/asyncio/getaddrinfo_addrconfig.py"
+F_UDP6 = "aiocoap/transports/udp6.py"
+R.seed("C02.k", F_MSG, "        token_length = vttkl & 0x0F\n", "        token_length = vttkl & 0x0F\n        if token_length > 7:\n            raise error.UnparsableMessage(\"Reserved token length\")\n",
+       "reserved-length check off by one: datagrams with the legal 8-byte token are dropped before matching")
+R.seed("C02.k", F_MSG, "        token_length = vttkl & 0x0F\n", "        token_length = vttkl & 0x07\n", "token length read from three bits: an 8-byte token is parsed as an empty one, the response matches nothing")
+R.seed("C02.k", F_MSG, "        msg.token = rawdata[4 : 4 + token_length]\n", "        msg.token = rawdata[4 : 3 + token_length]\n", "last token byte cut off")
+R.seed("C02.k", F_MSG, "        msg.remote = remote\n        msg.direction = Direction.INCOMING\n        return msg", "        msg.direction = Direction.INCOMING\n        return msg",
+       "parsed message without the remote it came from: (token, remote) never matches")
+R.seed("C02.k", F_MSG, "            (vttkl, code, mid) = struct.unpack(\"!BBH\", rawdata[:4])", "            (vttkl, code, mid) = struct.unpack(\"<BBH\", rawdata[:4])", "message ID read little-endian: the Reset for an unmatched CON echoes another ID")
+R.seed("C02.l", F_GAI, "    if not yielded:\n", "    if not yielded and not addrinfo:\n", "all candidates filtered out as unroutable: the generator ends, its single-step consumer gets StopAsyncIteration")
+R.seed("C02.l", F_UDP6, "        except socket.gaierror:\n            raise error.ResolutionError(\n                \"No address information found for requests to %r\" % host",
+       "        except TimeoutError:\n            raise error.ResolutionError(\n                \"No address information found for requests to %r\" % host", "consumer catches another class than the resolver raises")
+R.seed("C02.l", F_UDP6, "        except socket.gaierror:\n            raise error.ResolutionError(\n                \"No address information found for requests to %r\" % host",
+       "        except socket.gaierror:\n            raise LookupError(\n                \"No address information found for requests to %r\" % host", "resolution failure surfaces as a builtin exception")
+R.seed("C02.m", "aiocoap/util/asyncio/recvmsg.py", "            self._protocol.error_received(exc)\n            return\n", "            return\n", "send errors swallowed by the transport")
+R.seed("C02.m", F_UDP6, "        self._remote_being_sent_to.set(message.remote)\n", "", "destination never recorded: every send error is dropped as unattributable")
+R.seed("C02.m", F_UDP6, "        finally:\n            self._remote_being_sent_to.set(None)\n", "        finally:\n            pass\n", "destination never cleared: a later error is attributed to a stale remote")
